@@ -311,6 +311,7 @@ def write(name, text):
 
 if __name__ == "__main__":
     ch = []
-    for name, gen in (("Tokenizer.lean", gen_tokenizer), ("Terms.lean", gen_terms), ("Sites.lean", gen_sites), ("ParserShape.lean", gen_parser), ("Grammar.lean", gen_grammar)):
+    from arms import gen_arms
+    for name, gen in (("Arms.lean", gen_arms), ("Tokenizer.lean", gen_tokenizer), ("Terms.lean", gen_terms), ("Sites.lean", gen_sites), ("ParserShape.lean", gen_parser), ("Grammar.lean", gen_grammar)):
         if write(name, gen()): ch.append(name)
     print("extract: ok" + (" (rewrote " + ", ".join(ch) + ")" if ch else " (unchanged)"))
